@@ -50,6 +50,9 @@ pub struct Twin {
     /// accounts of the user in group 0 whose only collateral is one pass-through position each
     /// (kamino, solend, drift), each with a small debt in bank B
     pub vaccts: Vec<usize>,
+    /// staked-collateral side of group 0: (staked bank, a second staked bank over another pool,
+    /// SOL-class bank, account of the user holding the first LST with a small SOL-class debt)
+    pub staked: Option<(usize, usize, usize, usize)>,
 }
 
 /// Two structurally identical groups over the same mints (so that every account of group 0 has a
@@ -128,7 +131,7 @@ pub async fn build_twin_v(seed: u64, r: &mut R, with_venue: bool) -> (World, Twi
         // order: [kamino g0, kamino g1, solend g0, solend g1, drift g0, drift g1]
         venue = Some([vb[0], vb[2], vb[1], vb[3], db[0], db[1]]);
     }
-    let mut t = Twin { g0, g1, a0: idx[0], b0: idx[1], a1: idx[2], b1: idx[3], user, acct0, acct1, lender0, liquidator0, venue, vaccts: vec![] };
+    let mut t = Twin { g0, g1, a0: idx[0], b0: idx[1], a1: idx[2], b1: idx[3], user, acct0, acct1, lender0, liquidator0, venue, vaccts: vec![], staked: None };
     // liquidity and positions in both groups
     for (l, a, b) in [(lender0, t.a0, t.b0), (lender1, t.a1, t.b1)] {
         let k = w.auth_of(l);
@@ -173,6 +176,42 @@ pub async fn build_twin_v(seed: u64, r: &mut R, with_venue: bool) -> (World, Twi
             assert!(o.ok(), "venue-only account borrow failed: {}", o.err_string());
             t.vaccts.push(va);
         }
+    }
+    {
+        // staked collateral: two banks over different single pools, a SOL-class bank to borrow from
+        use marginfi_type_crate::types::RiskTier;
+        let admin = clone_kp(&w.groups[g0].admin);
+        let p = w.chain.payer.pubkey();
+        let sol_oracle = w.next_kp().pubkey();
+        w.set_pyth(&sol_oracle, PythPx::simple(150_000_000, -6, now));
+        let msol = w.add_mint(9, TokKind::Classic).await;
+        w.create_ata(w.fee_wallet.pubkey(), msol).await;
+        let mut c = default_bank_cfg();
+        c.asset_tag = 1;
+        let solb = w.add_bank_pyth(g0, msol, c, PythPx::simple(150_000_000, -6, now)).await.expect("sol bank");
+        let lk = w.auth_of(lender0);
+        let lta = w.ta_of(lender0, solb);
+        w.mint_to(msol, lta, 1 << 40).await;
+        let i = w.ix_deposit(lender0, solb, lk.pubkey(), lta, 1 << 38, None);
+        assert!(w.raw_send(&[i], &[&lk]).await.ok());
+        let st = marginfi::instructions::StakedSettingsConfig { oracle: sol_oracle, asset_weight_init: wi(0.8), asset_weight_maint: wi(0.9), deposit_limit: u64::MAX, total_asset_value_init_limit: 0, oracle_max_age: 600, risk_tier: RiskTier::Collateral };
+        let i = ix::init_staked_settings(w.groups[g0].key, admin.pubkey(), p, st);
+        assert!(w.raw_send(&[i], &[&admin]).await.ok(), "staked settings");
+        let s0 = w.add_staked_bank(g0, sol_oracle, 101_000_000_000, 0).await.expect("staked bank");
+        let s0b = w.add_staked_bank(g0, sol_oracle, 404_000_000_000, 0).await.expect("second staked bank");
+        let k = w.auth_of(acct0);
+        let sa = w.add_account(g0, user).await;
+        for (b, amt) in [(s0, 100_000_000_000u64), (s0b, 50_000_000_000)] {
+            let ta = w.ta_of(sa, b);
+            w.mint_to(w.banks[b].mint, ta, amt).await;
+        }
+        let i = w.ix_deposit(sa, s0, k.pubkey(), w.ta_of(sa, s0), 10_000_000_000, None);
+        let o = w.raw_send(&[i], &[&k]).await;
+        assert!(o.ok(), "LST deposit failed: {}", o.err_string());
+        let i = w.ix_borrow(sa, solb, k.pubkey(), w.ta_of(sa, solb), 1_000_000);
+        let o = w.raw_send(&[i], &[&k]).await;
+        assert!(o.ok(), "borrow against LST failed: {}", o.err_string());
+        t.staked = Some((s0, s0b, solb, sa));
     }
     // some accrued fees so that collect/withdraw fees have something to move
     w.chain.advance(30 * 86_400);
@@ -319,6 +358,23 @@ pub async fn cases(w: &mut World, t: &Twin) -> Vec<Case> {
             }
             v.push(Case { name: format!("borrow_against_{}_collateral", vname), ixs: vec![ixn], target: 0, signers: vec![clone_kp(&auth)], signer_key: Some(ak), entitled: vec!["authority"], subs });
         }
+    }
+    // ---- staked collateral is priced from three accounts (SOL price, LST mint, the pool's stake
+    // account): each of them must be the bank's own, one at a time
+    if let Some((s0, s0b, solb, sa)) = t.staked {
+        let ta = w.ta_of(sa, solb);
+        let ixn = w.ix_borrow(sa, solb, ak, ta, 1000);
+        let (own, twin) = (w.banks[s0].oracle.accounts(), w.banks[s0b].oracle.accounts());
+        let mut subs = vec![];
+        for (j, what) in [(1usize, "LST mint->mint of another pool's LST"), (2, "pool stake account->stake account of another pool")] {
+            if let Some(slot) = ixn.accounts.iter().rposition(|m| m.pubkey == own[j]) {
+                subs.push((slot, format!("staked collateral's {}", what), twin[j]));
+            }
+        }
+        if let Some(slot) = ixn.accounts.iter().rposition(|m| m.pubkey == own[0]) {
+            subs.push((slot, "staked collateral's SOL price account->another bank's price account".into(), w.banks[t.b0].oracle.accounts()[0]));
+        }
+        v.push(Case { name: "borrow_against_staked_collateral".into(), ixs: vec![ixn], target: 0, signers: vec![clone_kp(&auth)], signer_key: Some(ak), entitled: vec!["authority"], subs });
     }
     // ---- liquidation family (needs an unhealthy account: done by the caller through a price shock)
     {
